@@ -62,6 +62,7 @@ structure St where
   res : Res.St := {}                               -- C18: the resource ledger machine
   resLast : Std.HashMap Nat Nat := {}              -- C18: last key accepted by each writer (ordering gate)
   tp : Option Tp.St := none                        -- C13: the threadpool machine being replayed
+  tpk : Option TpK.St := none                      -- C13/C14: the k-client machine being replayed (tp.multi)
   fixF5 : Bool := true
   libBounds : List (Nat × Nat × Nat) := []                       -- (algorithm, n, value) of the library's bound functions
   libDBounds : List (Int × Nat × Nat) := []                      -- deflateBound (level, n, value)
@@ -927,6 +928,66 @@ partial def enumSched (s : Tp.St) (cur : Nat) (delays : Nat) (acc : List _root_.
 
 end TpDrv
 
+
+/-! ### the k-client machine (MtblModel/TpK.lean) replayed turn by turn against tp.multi of harness/tp_drv.c -/
+namespace TpKDrv
+open TpK
+
+def silent (s : TpK.St) : Who → Bool
+  | .owner => false
+  | .client c => match s.cl[c]? with
+    | some cl => cl.pc == .next false && cl.nextJob ≥ s.njobs
+    | none => false
+  | .handler c => match (s.cl[c]?).map (·.hpc) with | some (HPc.callback _) => true | _ => false
+  | .worker t => ((s.thr[t]?).map (·.pc)) == some WPc.gotJob
+
+def settle (s : TpK.St) (w : Who) : Nat → TpK.St
+  | 0 => s
+  | fuel + 1 => if silent s w then (match step s (.run w 0) with | some s' => settle s' w fuel | none => s) else s
+
+/-- one turn of the harness: the step, then what the real thread does before its next scheduling point: the destroy loop head
+    after a worker join (pool->m still held); the first critical section of a client right after it created its handler (a
+    new thread's first lock attempt is not a scheduling point); the silent steps as in the one-client driver -/
+def turn (s : TpK.St) (w : Who) : Option TpK.St :=
+  match step s (.run w 0) with
+  | none => none
+  | some s' =>
+    let again : Bool := match w with
+      | .owner => (match s.opc with | .joinW _ => true | _ => false)
+      | .client c => ((s.cl[c]?).map (·.pc)) == some CPc.mkH
+      | _ => false
+    let s' := if again then (let s1 := settle s' w 4; (step s1 (.run w 0)).getD s1) else s'
+    some (settle s' w 4)
+
+def whoName : Who → _root_.String
+  | .owner => "o" | .client c => "c" ++ toString c | .handler c => "h" ++ toString c | .worker t => "w" ++ toString t
+def allWho (s : TpK.St) : List Who :=
+  .owner :: ((List.range s.cl.size).flatMap fun c => [Who.client c, Who.handler c]) ++ (List.range s.thr.size).map Who.worker
+def sleeping (s : TpK.St) : Who → Bool
+  | .owner => s.opc == .destroy true
+  | .client c => ((s.cl[c]?).map (·.pc)) == some (CPc.next true)
+  | .handler c => match (s.cl[c]?).map (·.hpc) with
+    | some (HPc.deq true) => true | some (HPc.waitRes _ true) => true | _ => false
+  | .worker t => ((s.thr[t]?).map (·.pc)) == some (WPc.top true)
+def optJob : Option Nat → _root_.String | some j => toString j | none => "-1"
+def csv (l : List _root_.String) : _root_.String := ",".intercalate l
+def render (s : TpK.St) : _root_.String :=
+  if s.opc == .done then
+    "mst done" ++ _root_.String.join ((List.range s.cl.size).map fun c =>
+      " del" ++ toString c ++ "=[" ++ csv ((s.cl[c]!).delivered.map optJob) ++ "]") else
+  "mst run count=" ++ toString s.count ++ " idle=[" ++ csv (s.idle.map toString) ++ "] thr=[" ++
+  ";".intercalate (s.thr.toList.map fun th =>
+    if th.pc == .exited then "x" else
+    (if th.running then "1" else "0") ++ "/" ++ optJob th.cb ++ "/" ++ optJob th.res ++ "/" ++ optJob th.rq) ++ "]" ++
+  _root_.String.join ((List.range s.cl.size).map fun c =>
+    let cl := s.cl[c]!
+    " q" ++ toString c ++ "=[" ++ csv (cl.queue.map toString) ++ "] nth=" ++ toString cl.nthreads ++ " fin=" ++
+      (if cl.finished then "1" else "0") ++ " del" ++ toString c ++ "=[" ++ csv (cl.delivered.map optJob) ++ "]") ++
+  " en=[" ++ csv (((allWho s).filter fun w => (step s (.run w 0)).isSome).map whoName) ++
+  "] sl=[" ++ csv (((allWho s).filter (sleeping s)).map whoName) ++ "]"
+
+end TpKDrv
+
 def stepTp (s : St) (line : String) : Option (St × String) :=
   match line.trimAscii.toString.splitOn " " with
   | "tp.new" :: args =>
@@ -952,7 +1013,28 @@ def stepTp (s : St) (line : String) : Option (St × String) :=
           | some m' => some ({ s with tp := some m' }, TpDrv.render m')
           | none => some (s, "dis")
         | none => some (s, "dis")
+  | "tp.multi" :: args =>
+    let m := TpK.init (kvNat args "clients" 2) (kvNat args "max" 1) (kvNat args "jobs" 0) (kvNat args "ord" 1 == 1)
+    some ({ s with tpk := some m }, TpKDrv.render m)
   | ["tp.auto", r] =>
+    if s.tpk.isSome then
+      match s.tpk, r.toNat? with
+      | some m, some r =>
+        let cand := (TpKDrv.allWho m).filter fun w => (TpK.step m (.run w 0)).isSome
+        let sl := (TpKDrv.allWho m).filter (TpKDrv.sleeping m)
+        if sl.length > 0 && (r >>> 16) % 8 == 0 then
+          let w := sl[(r >>> 8) % sl.length]!
+          match TpK.step m (.spurious w) with
+          | some m' => some ({ s with tpk := some m' }, "pick s:" ++ TpKDrv.whoName w ++ " " ++ TpKDrv.render m')
+          | none => some (s, "pick s:" ++ TpKDrv.whoName w ++ " dis")
+        else if cand.length == 0 then some (s, "pick none " ++ TpKDrv.render m)
+        else
+          let w := cand[r % cand.length]!
+          match TpKDrv.turn m w with
+          | some m' => some ({ s with tpk := some m' }, "pick " ++ TpKDrv.whoName w ++ " " ++ TpKDrv.render m')
+          | none => some (s, "pick " ++ TpKDrv.whoName w ++ " dis")
+      | _, _ => none
+    else
     match s.tp, r.toNat? with
     | some m, some r =>
       let cand := (TpDrv.allWho m).filter fun w => (Tp.step m (.run w)).isSome
